@@ -36,6 +36,9 @@ limitations under the License.
 #include "issue_p.h"
 #include "logger_p.h"
 #include "utilities.h"
+#ifdef LIBCELLML_VERIF
+#    include "verifhooks.h"
+#endif
 
 namespace libcellml {
 
@@ -343,7 +346,11 @@ bool Importer::ImporterImpl::fetchModel(const ImportSourcePtr &importSource, con
     if (mLibrary.count(url) == 0) {
         // If the URL has not ever been resolved into a model in this library, with or
         // without baseFile, parse it and save.
+#ifdef LIBCELLML_VERIF
+        verif::InputFile file(url);
+#else
         std::ifstream file(url);
+#endif
         if (!file.good()) {
             auto issue = Issue::IssueImpl::create();
             issue->mPimpl->setDescription("The attempt to resolve imports with the model at '" + url + "' failed: the file could not be opened.");
